@@ -1,4 +1,4 @@
-CONSTANT Parts = {"stripe", "anchor", "vecanchor", "dist"}
+CONSTANT Parts = {"stripe", "anchor", "vecanchor", "dist", "capself"}
 CONSTANT ThetaStep = 450
 CONSTANT KsDeg = {14, 18, 22, 26, 30, 32, 34}
 CONSTANT KsRad = {14, 20, 26, 32, 36, 38, 40}
@@ -22,6 +22,7 @@ INVARIANT C18_DistZeroIffSamePoint
 INVARIANT C18_UnitsExact
 INVARIANT C18_DemandWithinStatement
 INVARIANT C18_ExpZero
+INVARIANT C18_CapSelf
 INVARIANT C18_IntForms
 INVARIANT C18_VecAnchorUnit
 INVARIANT C18_VecAnchorPole
